@@ -159,7 +159,9 @@ theorem wd_fire_waiting {s : St} (h : (fireIfDue s).wd = .waiting) : s.now < s.d
   unfold fireIfDue at h ⊢
   split at h
   · cases h
-  · next hc => rw [if_neg hc]; exact ⟨by omega, rfl⟩
+  · next hc =>
+    rw [if_neg hc]
+    exact ⟨Nat.lt_of_not_le (fun h2 => hc ⟨h, h2⟩), rfl⟩
 theorem wd_fire_shut_mono {s : St} (h : s.shut = true) : (fireIfDue s).shut = true := by
   unfold fireIfDue; split <;> simp [h]
 theorem wd_fire_idem (s : St) : fireIfDue (fireIfDue s) = fireIfDue s := by
@@ -258,6 +260,487 @@ theorem wd_read_cases (s : St) (n : Nat) : ReadCase (fireIfDue s) n (read s n) :
     split
     · next hw => exact .woken (by omega) (by omega) h1 h2 hw.1 hw.2.1 hw.2.2
     · next hw => exact .rcvTimeout (by omega) (by omega) h1 h2 hw
+
+/-! ### (a) only real timeouts -/
+
+theorem wd_timedOut_sound {s s' : St} {n : Nat} (h : Inv s) (hr : read s n = (.timedOut, s')) :
+    s'.deadline ≤ s'.now ∧ s'.wd = .fired ∧ s'.shut = true := by
+  have hc := wd_read_cases s n
+  rw [hr] at hc
+  have hi := wd_inv_fireIfDue h
+  generalize fireIfDue s = s1 at hc hi
+  cases hc with
+  | pingFailed _ _ _ hx hw =>
+    have hf : s'.wd = .fired := by
+      cases hwd : s'.wd with
+      | waiting => exact absurd hwd hw
+      | droppedRx => exact absurd hwd hi.noDropped
+      | exited => have := hi.exited_noTx hwd; rw [hx] at this; cases this
+      | fired => rfl
+    exact ⟨hi.fired_due hf, hf, hi.fired_shut hf⟩
+  | woken _ _ _ _ hw _ _ =>
+    have hd : (advance s1 s1.deadline).wd = .fired ∧ (advance s1 s1.deadline).shut = true := by
+      unfold advance fireIfDue
+      rw [if_pos ⟨hw, by simp only; omega⟩]; exact ⟨rfl, rfl⟩
+    refine ⟨?_, hd.1, hd.2⟩
+    simp only [wd_adv_now, wd_adv_deadline]; omega
+
+/-- the converse reading for `eof`: with the sender still held, `Ok(0)` is passed on only if the
+    peer closed, the socket is not shut, and the deadline has not been reached; the watchdog is told
+    to stand down -/
+theorem wd_eof_genuine {s s' : St} {n : Nat} (h : Inv s) (hx : s.hasTx = true)
+    (hr : read s n = (.eof, s')) :
+    s.peerClosed = true ∧ s.shut = false ∧ s.now < s.deadline ∧ s'.wd = .exited ∧ s'.shut = false ∧
+      s'.hasTx = false ∧ s'.now = s.now := by
+  have hc := wd_read_cases s n
+  rw [hr] at hc
+  have hi := wd_inv_fireIfDue h
+  generalize hs1 : fireIfDue s = s1 at hc hi
+  cases hc with
+  | eofReleased _ _ _ hx' => rw [← hs1, wd_fire_hasTx, hx] at hx'; cases hx'
+  | eofGenuine _ _ hcl _ hw =>
+    obtain ⟨hlt, hid⟩ := wd_fire_waiting (s := s) (by rw [hs1]; exact hw)
+    rw [hs1] at hid; subst hid
+    have hns : s1.shut = false := by
+      cases hsh : s1.shut with
+      | false => rfl
+      | true => have := hi.shut_fired hsh; rw [hw] at this; cases this
+    have hpc : s1.peerClosed = true := by
+      rcases hcl with h1 | h1
+      · exact h1
+      · rw [hns] at h1; cases h1
+    exact ⟨hpc, hns, hlt, rfl, hns, rfl, rfl⟩
+
+/-! ### (b) after end of stream -/
+
+/-- the stream has ended and the reader no longer holds its sender -/
+def Done (s : St) : Prop :=
+  s.hasTx = false ∧ s.buffered = 0 ∧ s.queued = 0 ∧ (s.peerClosed = true ∨ s.shut = true)
+
+theorem wd_done_of_eof {s s' : St} {n : Nat} (hr : read s n = (.eof, s')) : Done s' := by
+  have hc := wd_read_cases s n
+  rw [hr] at hc
+  generalize fireIfDue s = s1 at hc
+  cases hc with
+  | eofReleased h1 h2 h3 h4 => exact ⟨h4, h1, h2, h3⟩
+  | eofGenuine h1 h2 h3 _ _ => exact ⟨rfl, h1, h2, h3⟩
+
+theorem wd_done_fire {s : St} (h : Done s) : Done (fireIfDue s) := by
+  obtain ⟨h1, h2, h3, h4⟩ := h
+  refine ⟨by simpa using h1, by simpa using h2, by simpa using h3, ?_⟩
+  rcases h4 with h4 | h4
+  · exact .inl (by simpa using h4)
+  · exact .inr (wd_fire_shut_mono h4)
+
+theorem wd_done_advance {s : St} (h : Done s) (t : Nat) : Done (advance s t) := by
+  unfold advance
+  apply wd_done_fire
+  obtain ⟨h1, h2, h3, h4⟩ := h
+  exact ⟨h1, h2, h3, h4⟩
+
+theorem wd_done_read {s : St} (h : Done s) (n : Nat) : read s n = (.eof, fireIfDue s) := by
+  have hc := wd_read_cases s n
+  obtain ⟨h1, h2, h3, h4⟩ := wd_done_fire h
+  generalize read s n = r at hc
+  generalize fireIfDue s = s1 at *
+  cases hc with
+  | buffered h => omega
+  | socket _ h => omega
+  | eofReleased => rfl
+  | eofGenuine _ _ _ hx => rw [h1] at hx; cases hx
+  | pingFailed _ _ _ hx => rw [h1] at hx; cases hx
+  | woken _ _ hp hs =>
+    rcases h4 with h4 | h4
+    · rw [hp] at h4; cases h4
+    · rw [hs] at h4; cases h4
+  | rcvTimeout _ _ hp hs =>
+    rcases h4 with h4 | h4
+    · rw [hp] at h4; cases h4
+    · rw [hs] at h4; cases h4
+
+theorem wd_done_drop {s : St} (h : Done s) : Done (dropResponse s) := by
+  obtain ⟨h1, h2, h3, h4⟩ := h
+  exact ⟨rfl, h2, h3, h4⟩
+
+/-- number of read events of a scenario -/
+def wd_readCount : List (Nat × Ev) → Nat
+  | [] => 0
+  | (_, .read _) :: rest => wd_readCount rest + 1
+  | _ :: rest => wd_readCount rest
+
+def wd_isSend : Ev → Bool
+  | .send _ => true
+  | _ => false
+
+theorem wd_done_run {s : St} (h : Done s) (evs : List (Nat × Ev))
+    (hns : ∀ e ∈ evs, wd_isSend e.2 = false) :
+    run s evs = List.replicate (wd_readCount evs) .eof := by
+  induction evs generalizing s with
+  | nil => rfl
+  | cons e rest ih =>
+    obtain ⟨t, ev⟩ := e
+    have hrest : ∀ e ∈ rest, wd_isSend e.2 = false := fun e he => hns e (List.mem_cons_of_mem _ he)
+    have ha := wd_done_advance h t
+    cases ev with
+    | send k => have := hns (t, .send k) (List.mem_cons_self ..); simp [wd_isSend] at this
+    | close =>
+      simp only [run, wd_readCount]
+      exact ih (s := { advance s t with peerClosed := true })
+        ⟨ha.1, ha.2.1, ha.2.2.1, .inl rfl⟩ hrest
+    | read k =>
+      simp only [run, wd_readCount, wd_done_read ha k, List.replicate_succ]
+      rw [ih (wd_done_fire ha) hrest]
+    | drop =>
+      simp only [run, wd_readCount]
+      exact ih (wd_done_drop ha) hrest
+
+/-! ### (c) a cut body is not a complete body -/
+
+theorem wd_cut {s : St} (h : Inv s) (n : Nat) (hs : s.shut = true) (hp : s.peerClosed = false)
+    (hq : s.queued = 0) (hb : s.buffered = 0) (hx : s.hasTx = true) : read s n = (.timedOut, s) := by
+  have hf : s.wd = .fired := h.shut_fired hs
+  have hfi : fireIfDue s = s := wd_fire_of_not_waiting (by rw [hf]; simp)
+  have hc := wd_read_cases s n
+  rw [hfi] at hc
+  generalize read s n = r at hc
+  cases hc with
+  | buffered h => omega
+  | socket _ h => omega
+  | eofReleased _ _ _ hx' => rw [hx] at hx'; cases hx'
+  | eofGenuine _ _ _ _ hw => rw [hf] at hw; cases hw
+  | pingFailed => rfl
+  | woken _ _ _ hs' => rw [hs] at hs'; cases hs'
+  | rcvTimeout _ _ _ hs' => rw [hs] at hs'; cases hs'
+
+/-- a read that does not return `eof` leaves the sender where it is -/
+theorem wd_read_hasTx {s : St} {n : Nat} (hx : s.hasTx = true) (hne : (read s n).1 ≠ .eof) :
+    (read s n).2.hasTx = true := by
+  have hc := wd_read_cases s n
+  have hx1 : (fireIfDue s).hasTx = true := by simpa using hx
+  generalize read s n = r at hc hne
+  generalize fireIfDue s = s1 at hc hx1
+  cases hc with
+  | buffered => exact hx1
+  | socket => exact hx1
+  | eofReleased => exact absurd rfl hne
+  | eofGenuine => exact absurd rfl hne
+  | pingFailed => exact hx1
+  | woken => simpa using hx1
+  | rcvTimeout => simpa using hx1
+
+theorem wd_step_hasTx {s s' : St} {a : Lbl} (st : Step s a s') (hx : s.hasTx = true)
+    (hd : a ≠ .drop) (he : ∀ n, a ≠ .read n .eof) : s'.hasTx = true := by
+  cases st with
+  | adv t => simpa using hx
+  | send n _ => exact hx
+  | close => exact hx
+  | read n _ => exact wd_read_hasTx hx (fun h => he n (by rw [h]))
+  | drop => exact absurd rfl hd
+
+theorem wd_trace_hasTx {s s' : St} {l : List Lbl} (tr : Trace s l s') (hx : s.hasTx = true)
+    (hd : Lbl.drop ∉ l) (he : ∀ n, Lbl.read n .eof ∉ l) : s'.hasTx = true := by
+  induction tr with
+  | nil _ => exact hx
+  | cons st _ ih =>
+    exact ih (wd_step_hasTx st hx (fun h => hd (by rw [h]; exact List.mem_cons_self ..))
+        (fun n h => he n (by rw [h]; exact List.mem_cons_self ..)))
+      (fun h => hd (List.mem_cons_of_mem _ h)) (fun n h => he n (List.mem_cons_of_mem _ h))
+
+/-! ### (d) data first, nothing fabricated -/
+
+def wd_bytes : RdOut → Nat
+  | .data k => k
+  | _ => 0
+
+/-- bytes are conserved by a read: what it returns is what left the two buffers -/
+theorem wd_read_conserve (s : St) (n : Nat) :
+    (read s n).2.buffered + (read s n).2.queued + wd_bytes (read s n).1 = s.buffered + s.queued := by
+  have hc := wd_read_cases s n
+  have e1 : (fireIfDue s).buffered = s.buffered := by simp
+  have e2 : (fireIfDue s).queued = s.queued := by simp
+  generalize read s n = r at hc
+  generalize fireIfDue s = s1 at hc e1 e2
+  cases hc with
+  | buffered h => simp only [wd_bytes]; omega
+  | socket h1 h2 => simp only [wd_bytes]; split <;> omega
+  | eofReleased => simp only [wd_bytes]; omega
+  | eofGenuine => simp only [wd_bytes]; omega
+  | pingFailed => simp only [wd_bytes]; omega
+  | woken => simp only [wd_bytes, wd_adv_buffered, wd_adv_queued]; omega
+  | rcvTimeout => simp only [wd_bytes, wd_adv_buffered, wd_adv_queued]; omega
+
+theorem wd_data_first (s : St) (n : Nat) (hn : 0 < n) (hd : 0 < s.buffered + s.queued) :
+    ∃ k, 0 < k ∧ k ≤ n ∧ (read s n).1 = .data k := by
+  have hc := wd_read_cases s n
+  have e1 : (fireIfDue s).buffered = s.buffered := by simp
+  have e2 : (fireIfDue s).queued = s.queued := by simp
+  generalize read s n = r at hc
+  generalize fireIfDue s = s1 at hc e1 e2
+  cases hc with
+  | buffered h => exact ⟨_, by omega, by omega, rfl⟩
+  | socket h1 h2 => exact ⟨_, by omega, by omega, rfl⟩
+  | eofReleased => omega
+  | eofGenuine => omega
+  | pingFailed => omega
+  | woken => omega
+  | rcvTimeout => omega
+
+def wd_delivered : List RdOut → Nat
+  | [] => 0
+  | o :: os => wd_bytes o + wd_delivered os
+
+def wd_sent : List (Nat × Ev) → Nat
+  | [] => 0
+  | (_, .send n) :: rest => n + wd_sent rest
+  | _ :: rest => wd_sent rest
+
+theorem wd_delivered_le (s : St) (evs : List (Nat × Ev)) :
+    wd_delivered (run s evs) ≤ s.buffered + s.queued + wd_sent evs := by
+  induction evs generalizing s with
+  | nil => simp [run, wd_delivered]
+  | cons e rest ih =>
+    obtain ⟨t, ev⟩ := e
+    have e1 : (advance s t).buffered = s.buffered := by simp
+    have e2 : (advance s t).queued = s.queued := by simp
+    cases ev with
+    | send k =>
+      simp only [run, wd_sent]
+      split
+      · have := ih (advance s t); omega
+      · have := ih { advance s t with queued := (advance s t).queued + k }
+        simp only at this; omega
+    | close =>
+      simp only [run, wd_sent]
+      have := ih { advance s t with peerClosed := true }
+      simp only at this; omega
+    | read k =>
+      simp only [run, wd_sent, wd_delivered]
+      have := ih (read (advance s t) k).2
+      have := wd_read_conserve (advance s t) k
+      omega
+    | drop =>
+      simp only [run, wd_sent]
+      have := ih (dropResponse (advance s t))
+      have e3 : (dropResponse (advance s t)).buffered = (advance s t).buffered := rfl
+      have e4 : (dropResponse (advance s t)).queued = (advance s t).queued := rfl
+      omega
+
+/-! ### (e) release -/
+
+theorem wd_drop_release (s : St) : (dropResponse s).hasTx = false ∧ (dropResponse s).wd ≠ .waiting := by
+  refine ⟨rfl, ?_⟩
+  simp only [dropResponse]
+  split
+  · simp
+  · assumption
+
+theorem wd_drop_exited {s : St} (h : Inv s) (hs : s.shut = false) :
+    (dropResponse s).wd = .exited ∧ (dropResponse s).shut = false := by
+  refine ⟨?_, hs⟩
+  simp only [dropResponse]
+  split
+  · rfl
+  · next hw =>
+    cases hwd : s.wd with
+    | waiting => exact absurd hwd hw
+    | droppedRx => exact absurd hwd h.noDropped
+    | exited => rfl
+    | fired => have := h.fired_shut hwd; rw [hs] at this; cases this
+
+theorem wd_exited_read {s : St} (n : Nat) (h : s.wd = .exited) :
+    (read s n).2.wd = .exited ∧ (read s n).2.shut = s.shut := by
+  have hnw : s.wd ≠ .waiting := by rw [h]; simp
+  have hfi : fireIfDue s = s := wd_fire_of_not_waiting hnw
+  have hc := wd_read_cases s n
+  rw [hfi] at hc
+  generalize read s n = r at hc
+  cases hc with
+  | buffered => exact ⟨h, rfl⟩
+  | socket => exact ⟨h, rfl⟩
+  | eofReleased => exact ⟨h, rfl⟩
+  | eofGenuine _ _ _ _ hw => exact absurd hw hnw
+  | pingFailed => exact ⟨h, rfl⟩
+  | woken _ _ _ _ hw => exact absurd hw hnw
+  | rcvTimeout => rw [wd_adv_of_not_waiting _ hnw]; exact ⟨h, rfl⟩
+
+theorem wd_exited_step {s s' : St} {a : Lbl} (st : Step s a s') (h : s.wd = .exited) :
+    s'.wd = .exited ∧ s'.shut = s.shut := by
+  have hnw : s.wd ≠ .waiting := by rw [h]; simp
+  cases st with
+  | adv t => rw [wd_adv_of_not_waiting _ hnw]; exact ⟨h, rfl⟩
+  | send n _ => exact ⟨h, rfl⟩
+  | close => exact ⟨h, rfl⟩
+  | read n _ => exact wd_exited_read n h
+  | drop => simp only [dropResponse]; rw [if_neg hnw]; exact ⟨h, trivial⟩
+
+theorem wd_exited_reach {s s' : St} (r : Reach s s') (h : s.wd = .exited) :
+    s'.wd = .exited ∧ s'.shut = s.shut := by
+  have := r.preserves (P := fun x => x.wd = .exited ∧ x.shut = s.shut)
+    (fun x a x' hp st => by
+      obtain ⟨h1, h2⟩ := wd_exited_step st hp.1
+      exact ⟨h1, h2.trans hp.2⟩) ⟨h, rfl⟩
+  exact this
+
+/-! ### (f) how long a read can take -/
+
+theorem wd_read_time (s : St) (n : Nat) :
+    s.now ≤ (read s n).2.now ∧ (read s n).2.now ≤ s.now + s.readTimeout ∧
+    (s.wd = .waiting → s.hasTx = true → (read s n).2.now ≤ max s.now s.deadline) := by
+  have hc := wd_read_cases s n
+  have e1 : (fireIfDue s).now = s.now := by simp
+  have e2 : (fireIfDue s).deadline = s.deadline := by simp
+  have e3 : (fireIfDue s).readTimeout = s.readTimeout := by simp
+  have e4 : (fireIfDue s).hasTx = s.hasTx := by simp
+  have e5 : (fireIfDue s).wd = .waiting ∨ (fireIfDue s).shut = true ∨ s.wd ≠ .waiting := by
+    unfold fireIfDue
+    split
+    · exact .inr (.inl rfl)
+    · cases hw : s.wd <;> simp
+  generalize read s n = r at hc
+  generalize fireIfDue s = s1 at hc e1 e2 e3 e4 e5
+  cases hc with
+  | buffered => simp only; omega
+  | socket => simp only; omega
+  | eofReleased => simp only; omega
+  | eofGenuine => simp only; omega
+  | pingFailed => simp only; omega
+  | woken => simp only [wd_adv_now]; omega
+  | rcvTimeout _ _ _ hs hn =>
+    simp only [wd_adv_now]
+    refine ⟨by omega, by omega, fun hw hx => ?_⟩
+    rcases e5 with h | h | h
+    · have : ¬ s1.deadline ≤ s1.now + s1.readTimeout := fun hd => hn ⟨h, by rw [e4]; exact hx, hd⟩
+      omega
+    · rw [hs] at h; cases h
+    · exact absurd hw h
+
+/-- at or after the deadline, with the response alive: the read returns at once, with data or with
+    `TimedOut` -/
+theorem wd_read_immediate {s : St} (h : Inv s) (n : Nat) (hx : s.hasTx = true)
+    (hd : s.deadline ≤ s.now) :
+    (read s n).2.now = s.now ∧ ((∃ k, (read s n).1 = .data k) ∨ (read s n).1 = .timedOut) := by
+  have hc := wd_read_cases s n
+  have hi := wd_inv_fireIfDue h
+  have e1 : (fireIfDue s).now = s.now := by simp
+  have e4 : (fireIfDue s).hasTx = true := by simpa using hx
+  have e5 : (fireIfDue s).wd = .fired := by
+    unfold fireIfDue
+    split
+    · rfl
+    · next hn =>
+      cases hw : s.wd with
+      | waiting => exact absurd ⟨hw, hd⟩ hn
+      | droppedRx => exact absurd hw h.noDropped
+      | exited => have := h.exited_noTx hw; rw [hx] at this; cases this
+      | fired => rfl
+  generalize read s n = r at hc
+  generalize fireIfDue s = s1 at hc hi e1 e4 e5
+  have hsh := hi.fired_shut e5
+  cases hc with
+  | buffered => exact ⟨e1, .inl ⟨_, rfl⟩⟩
+  | socket => exact ⟨e1, .inl ⟨_, rfl⟩⟩
+  | eofReleased _ _ _ hx' => rw [e4] at hx'; cases hx'
+  | eofGenuine _ _ _ _ hw => rw [e5] at hw; cases hw
+  | pingFailed => exact ⟨e1, .inr rfl⟩
+  | woken _ _ _ hs => rw [hsh] at hs; cases hs
+  | rcvTimeout _ _ _ hs => rw [hsh] at hs; cases hs
+
+/-- once the stream is done a read takes no time -/
+theorem wd_done_read_now {s : St} (h : Done s) (n : Nat) : (read s n).2.now = s.now := by
+  rw [wd_done_read h n]; simp
+
+theorem wd_read_deadline (s : St) (n : Nat) : (read s n).2.deadline = s.deadline := by
+  have hc := wd_read_cases s n
+  have e2 : (fireIfDue s).deadline = s.deadline := by simp
+  generalize read s n = r at hc
+  generalize fireIfDue s = s1 at hc e2
+  cases hc <;> simp only [wd_adv_deadline] <;> omega
+
+/-- the loop invariant of a caller that only reads: the response is alive or the stream is done,
+    and the clock has not passed `B` -/
+def ReadsInv (B : Nat) (x : St) : Prop :=
+  Inv x ∧ (x.hasTx = true ∨ Done x) ∧ x.now ≤ B ∧ x.deadline ≤ B
+
+theorem wd_readsInv_read {B : Nat} {x : St} (h : ReadsInv B x) (n : Nat) : ReadsInv B (read x n).2 := by
+  obtain ⟨hi, hor, hb, hdl⟩ := h
+  refine ⟨wd_inv_read hi n, ?_, ?_, by rw [wd_read_deadline]; exact hdl⟩
+  · rcases hor with hx0 | hdone
+    · cases hout : (read x n).1 with
+      | eof =>
+        have : read x n = (.eof, (read x n).2) := by rw [← hout]
+        exact .inr (wd_done_of_eof this)
+      | data k => exact .inl (wd_read_hasTx hx0 (by rw [hout]; simp))
+      | timedOut => exact .inl (wd_read_hasTx hx0 (by rw [hout]; simp))
+      | wouldBlock => exact .inl (wd_read_hasTx hx0 (by rw [hout]; simp))
+    · rw [wd_done_read hdone n]; exact .inr (wd_done_fire hdone)
+  · rcases hor with hx0 | hdone
+    · have ht := wd_read_time x n
+      cases hw : x.wd with
+      | waiting => have := ht.2.2 hw hx0; omega
+      | droppedRx => exact absurd hw hi.noDropped
+      | exited => have := hi.exited_noTx hw; rw [hx0] at this; cases this
+      | fired =>
+        have := (wd_read_immediate hi n hx0 (hi.fired_due hw)).1
+        omega
+    · rw [wd_done_read_now hdone n]; exact hb
+
+/-- a caller doing nothing but reads is never kept past `max now deadline` while the response is
+    alive (or ended by a genuine end of stream) -/
+theorem wd_reads_bounded {s s' : St} {l : List Lbl} (h : Inv s) (hx : s.hasTx = true)
+    (tr : Trace s l s') (hl : ∀ a ∈ l, ∃ n o, a = .read n o) : s'.now ≤ max s.now s.deadline := by
+  have key : ∀ {x x' : St} {l : List Lbl}, Trace x l x' → (∀ a ∈ l, ∃ n o, a = .read n o) →
+      ReadsInv (max s.now s.deadline) x → ReadsInv (max s.now s.deadline) x' := by
+    intro x x' l tr
+    induction tr with
+    | nil _ => exact fun _ hp => hp
+    | cons st _ ih =>
+      intro hl hp
+      obtain ⟨n, o, ha⟩ := hl _ (List.mem_cons_self ..)
+      subst ha
+      cases st with
+      | read n hn => exact ih (fun a ha => hl a (List.mem_cons_of_mem _ ha)) (wd_readsInv_read hp n)
+  exact (key tr hl ⟨h, .inl hx, by omega, by omega⟩).2.2.1
+
+/-! ### `run` scenarios are traces -/
+
+/-- the state after a scenario -/
+def wd_exec : St → List (Nat × Ev) → St
+  | s, [] => s
+  | s, (t, ev) :: rest =>
+    let s := advance s t
+    match ev with
+    | .send n => wd_exec (if s.shut then s else { s with queued := s.queued + n }) rest
+    | .close => wd_exec { s with peerClosed := true } rest
+    | .read n => wd_exec (read s n).2 rest
+    | .drop => wd_exec (dropResponse s) rest
+
+theorem wd_exec_reach (s : St) (evs : List (Nat × Ev))
+    (hn : ∀ e ∈ evs, ∀ n, e.2 = .read n → 0 < n) : Reach s (wd_exec s evs) := by
+  induction evs generalizing s with
+  | nil => exact .refl s
+  | cons e rest ih =>
+    obtain ⟨t, ev⟩ := e
+    have hrest : ∀ e ∈ rest, ∀ n, e.2 = .read n → 0 < n := fun e he => hn e (List.mem_cons_of_mem _ he)
+    have ra : Reach s (advance s t) := (Reach.refl s).step (.adv s t)
+    cases ev with
+    | send k =>
+      simp only [wd_exec]
+      split
+      · exact ra.trans (ih _ hrest)
+      · next hs =>
+        exact (ra.step (.send _ k (by simpa using hs))).trans (ih _ hrest)
+    | close => exact (ra.step (.close _)).trans (ih _ hrest)
+    | read k =>
+      exact (ra.step (.read _ k (hn (t, .read k) (List.mem_cons_self ..) k rfl))).trans (ih _ hrest)
+    | drop => exact (ra.step (.drop _)).trans (ih _ hrest)
+
+theorem wd_run_append (s : St) (e1 e2 : List (Nat × Ev)) :
+    run s (e1 ++ e2) = run s e1 ++ run (wd_exec s e1) e2 := by
+  induction e1 generalizing s with
+  | nil => rfl
+  | cons e rest ih =>
+    obtain ⟨t, ev⟩ := e
+    cases ev <;> simp [run, wd_exec, ih]
 
 end Wd
 end Atto
